@@ -22,9 +22,9 @@ theorem enterState_cur (mi : Nat) (m : Machine) (cur next : Nat) (s : Fw σ) (r 
         obtain ⟨hrl, _⟩ := sampleLimit_spec ρ mi a (s.modRt mi (fun r => { r with currentState := next }))
         refine ⟨{ r with currentState := next, stateLimit :=
           (sampleLimit ρ a (s.modRt mi (fun r => { r with currentState := next }))).1 }, ?_, rfl⟩
-        rw [Fw.modRt_rt_self, hrl.rt, hA]; rfl
+        rw [Fw.push_rt, Fw.modRt_rt_self, hrl.rt, hA]; rfl
       · refine ⟨{ r with currentState := next, stateLimit := STATE_LIMIT_MAX }, ?_, rfl⟩
-        rw [Fw.modRt_rt_self, hA]; rfl
+        rw [Fw.push_rt, Fw.modRt_rt_self, hA]; rfl
   · next h =>
     have : cur = next := by
       by_cases h' : cur = next
@@ -147,7 +147,12 @@ theorem reach_main (fuel : Nat) :
       | some st =>
       simp only []
       have hA := applyCounterA_reach ρ mi st.counterA r.counterA r.counterB s
-      have hB := hA.trans (applyCounterB_reach ρ mi st.counterB r.counterA r.counterB _)
+      have hB := Reach.tail (hA.trans (applyCounterB_reach ρ mi st.counterB r.counterA r.counterB _))
+        (Step.push _ (.counter mi r.counterA
+          (counterAOf (applyCounterB ρ mi st.counterB r.counterA r.counterB
+            (applyCounterA ρ mi st.counterA r.counterA r.counterB s).1).1 mi) r.counterB
+          (counterBOf (applyCounterB ρ mi st.counterB r.counterA r.counterB
+            (applyCounterA ρ mi st.counterA r.counterA r.counterB s).1).1 mi)))
       split
       · have hT := hB.trans (ihT mi .counterZero _)
         split
@@ -172,8 +177,8 @@ theorem decrementLimit_reach (mi : Nat) (s : Fw σ) : Reach mi s (decrementLimit
   | some m =>
   simp only []
   generalize (if r.stateLimit > 0 then r.stateLimit - 1 else r.stateLimit) = lim
-  have h1 : Reach mi s (s.modRt mi (fun r' => { r' with stateLimit := lim })) :=
-    Reach.single (Step.setLimit s _)
+  have h1 : Reach mi s ((s.modRt mi (fun r' => { r' with stateLimit := lim })).push (.limit mi lim true)) :=
+    Reach.tail (Reach.single (Step.setLimit s _)) (Step.push _ _)
   cases hst : m.states[r.currentState]? with
   | none => simp only []; exact Reach.tail h1 (Step.fault _ _)
   | some st =>
@@ -184,10 +189,10 @@ theorem decrementLimit_reach (mi : Nat) (s : Fw σ) : Reach mi s (decrementLimit
   simp only []
   by_cases hc : (lim = 0 && a.hasLimit) = true
   · rw [if_pos hc]
-    by_cases hlen : mi ≥ (s.modRt mi (fun r' => { r' with stateLimit := lim })).actions.length
+    by_cases hlen : mi ≥ ((s.modRt mi (fun r' => { r' with stateLimit := lim })).push (.limit mi lim true)).actions.length
     · rw [if_pos hlen]; exact Reach.tail h1 (Step.fault _ _)
     · rw [if_neg hlen]
-      have hlen' : mi < (s.modRt mi (fun r' => { r' with stateLimit := lim })).actions.length := by omega
+      have hlen' : mi < ((s.modRt mi (fun r' => { r' with stateLimit := lim })).push (.limit mi lim true)).actions.length := by omega
       exact (Reach.tail h1 (Step.clear _ hlen')).trans (transition_reach ρ _ _ _ _)
   · rw [if_neg hc]; exact h1
 
